@@ -208,7 +208,7 @@ func (p *sparser) unary() SExpr {
 	t := p.peek()
 	if t.k == "op" {
 		switch t.v {
-		case "!", "-", "*", "^":
+		case "!", "-", "*", "^", "&":
 			p.next()
 			return &SUnary{t.v, p.unary()}
 		}
